@@ -48,7 +48,12 @@ func runStopScenario(t *testing.T, sc stopScenario) verifh.Case {
 	if sc.OneP {
 		defer runtime.GOMAXPROCS(runtime.GOMAXPROCS(1))
 	}
-	synctest.Test(t, func(t *testing.T) {
+	defer func() {
+		// goroutines left blocked when the bubble ends make synctest panic: the trace collected so far (without
+		// a return event) is the observation
+		_ = recover()
+	}()
+	bubble := func(t *testing.T) {
 		time.Sleep(time.Duration(7919 * int64(len(sc.ID))))
 		cfg := config.Interface{Name: "v0", Advertise: true, UnicastOnly: sc.UnicastOnly,
 			MinInterval: 4 * time.Second, MaxInterval: 4 * time.Second, HopLimit: 64, Managed: true,
@@ -138,8 +143,15 @@ func runStopScenario(t *testing.T, sc stopScenario) verifh.Case {
 				synctest.Wait()
 			}
 		}
+		waitDone := func() {
+			// Run must return promptly; if it does not, the trace simply has no return event
+			select {
+			case <-done:
+			case <-time.After(120 * time.Second):
+			}
+		}
 		if sc.CancelInRead {
-			<-done
+			waitDone()
 		} else {
 			time.Sleep(time.Until(cancelT))
 			if sc.CloseWatch == 1 {
@@ -150,7 +162,7 @@ func runStopScenario(t *testing.T, sc stopScenario) verifh.Case {
 			if sc.CloseWatch == 2 {
 				close(watchC)
 			}
-			<-done
+			waitDone()
 		}
 		// anything the advertiser still does after Run returned shows up after "return"
 		time.Sleep(30 * time.Second)
@@ -167,7 +179,11 @@ func runStopScenario(t *testing.T, sc stopScenario) verifh.Case {
 				}
 			}
 		}
-	})
+	}
+	func() {
+		defer func() { _ = recover() }()
+		synctest.Test(t, bubble)
+	}()
 	t0 := int64(0)
 	if len(log) > 0 {
 		t0 = log[0].T
